@@ -213,6 +213,50 @@ pub fn specs() -> Vec<PropSpec> {
             assumptions: CUT_ASSUMPTIONS,
         },
         PropSpec {
+            id: "C11",
+            parts: &[("c11", 320, 6000), ("c11cuts", 16, 320)],
+            level: "exploration",
+            tags: &["C11"],
+            rule: "Two kinds of evaluation. (1) c11: one seeded history of \
+                20-60 operations biased towards publication (ROA/ASPA/BGPsec \
+                changes, key rolls, re-publication), explicit RRDP session \
+                resets, restarts with another retention configuration \
+                and clock advances, on a per-run drawn retention \
+                configuration (min/max number, min/max age, update \
+                interval, archive). After every API operation and after \
+                every single background task a simulated client \
+                population parses notification.xml, the snapshot and all \
+                listed deltas with the rpki RRDP parser and checks: files \
+                exist with the stated hashes and carry the stated \
+                session/serial; the deltas form a contiguous run ending \
+                at the serial and do not outnumber the configured \
+                maximum; the serial grows by at most one per step, the \
+                session changes only on a reset and then restarts at 1 \
+                without deltas; a serial once seen keeps its content; \
+                EVERY earlier serial of the session the population has \
+                seen reaches exactly the current snapshot by applying the \
+                delta chain strictly (publish needs absence, update and \
+                withdraw need the stated hash) whenever the chain is \
+                contiguous from it; the rsync tree equals the snapshot; \
+                at quiescence the snapshot equals the repository \
+                content. (2) c11cuts: one (operation, state) pair as for \
+                C08 with cuts only in the file-system mutations of the \
+                publication server (directory creation, file creation, \
+                write, notification rename, clean-up, the three rsync \
+                directory renames/removals), each realised as crash, \
+                as I/O error and (for writes) as a torn write followed \
+                by a crash; right after the cut the notification must \
+                name existing files with the stated hashes and clients \
+                of the previous serial must be able to follow; after \
+                background work (and the hourly retry) RRDP snapshot and \
+                rsync tree must equal the repository content; a later \
+                forced re-publication must produce a new serial that is \
+                served completely. distinct_nontrivial counts distinct \
+                event-log fingerprints of histories plus distinct cut \
+                triples (operation kind | site class | variant).",
+            assumptions: COMMON_ASSUMPTIONS,
+        },
+        PropSpec {
             id: "C05",
             parts: &[("c05", 480, 6000)],
             level: "exploration",
